@@ -105,6 +105,27 @@ MUTANTS = [
      "c.connect(server_name, logger_status=logger_status, allow_multiple=allow_multiple)", "c.connect(server_name, logger_status, allow_multiple)"),
     ("c06_name_check_dropped", "C06", M,
      "                    if (m.unique or module.unique) and (m.name == module.name):", "                    if False:"),
+    ("c08_no_drain_on_size_mismatch", "C08", CL,
+     "        if type_size != header.num_data_bytes:\n            _ = self._drain(header.num_data_bytes)\n", "        if type_size != header.num_data_bytes:\n"),
+    ("c08_filter_only_once", "C08", CL,
+     "                t_rem = max(timeout - (time.perf_counter() - t0), 0)\n            M = self._read_message(timeout, ack, sync_check)\n",
+     "                t_rem = max(timeout - (time.perf_counter() - t0), 0)\n            M = self._read_message(timeout, ack, sync_check)\n            break\n"),
+    ("c08_sync_check_ignores_mismatch", "C08", CL,
+     "if sync_check and header.version != 0 and header.version != data.type_hash:", "if sync_check and header.version == 0 and header.version != data.type_hash:"),
+    ("c08_short_read_keeps_connected", "C08", CL,
+     "            if nbytes != header.size:\n                self._connected = False\n                raise ConnectionLost", "            if nbytes != header.size:\n                raise ConnectionLost"),
+    ("c08_drain_declared_minus_one", "C08", CL,
+     "            return self._sock.recv(nbytes, socket.MSG_WAITALL)", "            return self._sock.recv(max(nbytes - 1, 0), socket.MSG_WAITALL)"),
+    ("c18_counts_stat_messages", "C18", M,
+     "        if not self.sending_traffic.get():\n            if self.b_send_msg_timing:", "        if True:\n            if self.b_send_msg_timing:"),
+    ("c18_counts_not_cleared", "C18", M,
+     "                data.timing[mt] = count\n        self.message_counts.clear()", "                data.timing[mt] = count"),
+    ("c18_chunk_off_by_one", "C18", M,
+     "                chunk = entries[start : start + cd.MESSAGE_TRAFFIC_SIZE]", "                chunk = entries[start : start + cd.MESSAGE_TRAFFIC_SIZE - 1]"),
+    ("c18_traffic_counter_not_cleared_between", "C18", M,
+     "        self.traffic_counter.clear()\n        self.traffic_start = now", "        self.traffic_start = now"),
+    ("c18_pid_from_wrong_module", "C18", M,
+     "            data.ModulePID[mod.mod_id] = mod.pid", "            data.ModulePID[mod.mod_id] = mod.uid"),
     ("c03_size_check_off_by_one", "C03", M,
      "if data_size < 0 or data_size > len(self.data_buffer):", "if data_size < -1 or data_size > len(self.data_buffer):"),
 ]
